@@ -24,6 +24,7 @@ RULES = {
     "R14.2": "no Yield between taking a message item from a connection and returning it",
     "R14.3": "fair queue poll is synchronous and re-arms the waker on every poll (C05 R05.1, C06 R06.1)",
     "R14.4": "partial messages live in the codec (C02 R02.3)",
+    "R14.F": "foundation clauses re-evaluated as necessary conditions: " + ", ".join(['decoder', 'wakeup']),
 }
 
 DESTRUCTIVE = {"take", "replace", "pop", "pop_front", "pop_back", "remove", "swap_remove", "clear", "drain", "insert", "push", "push_back", "push_front", "truncate", "split_off", "swap", "get_or_insert", "insert_entry"}
@@ -55,7 +56,12 @@ def self_rooted_field(e, fields):
     return None
 
 
+DEPENDS = ['decoder', 'wakeup']     # foundation groups re-evaluated as necessary conditions (rules/found.py)
+
+
 def run(ctx, f, rep):
+    from . import found
+    found.import_groups(ctx, f, rep, 'C14', DEPENDS)
     recvs = trait_impls(f, "SocketRecv", "recv")
     rep.floor("R14.1", "SocketRecv::recv impls", len(recvs), 7)
     total_y = 0
